@@ -599,7 +599,10 @@ def apply_op(w, op):
         cfg[op[1]] = w.dec(op[2])
         return None
     if name == "load_tree":
-        cfg.load_tree(w.dec(op[1]))
+        if len(op) > 2 and op[2] == "nv":     # the whole-configuration pass is skipped; every field is still held to its own checks
+            cfg.load_tree(w.dec(op[1]), validate=False)
+        else:
+            cfg.load_tree(w.dec(op[1]))
         return None
     if name == "loads":
         tree = w.dec(op[2])
@@ -776,6 +779,9 @@ def ops_for(spec, leafname, tier="quick"):
             if not _jsonlike(v):
                 continue
             ops.append(["load_tree", tree_for(path, v)])
+        for cls, v in vals[:2] + vals[len(valid):]:
+            if _jsonlike(v):
+                ops.append(["load_tree", tree_for(path, v), "nv"])
         for cls, v in vals[:1] + vals[len(valid):len(valid) + 1]:
             if _jsonlike(v):
                 ops.append(["loads", "json", tree_for(path, v)])
